@@ -2,11 +2,12 @@ package ratelimiter
 
 import (
 	"errors"
+	"github.com/megaease/easegress/pkg/v"
+	"net/http"
+	"net/url"
 	"reflect"
 	"strconv"
 	"strings"
-	"net/http"
-	"net/url"
 	"time"
 
 	"github.com/megaease/easegress/pkg/protocols/httpprot"
@@ -93,4 +94,34 @@ func verifC13_RateLimiter() {
 		verifAssert(res == "" || res == resultRateLimited, "declared-result")
 	}
 	verifCover("handled")
+}
+
+// verifC13_RateLimiterRegex: the Go-level half of the REAL v.Validate (traverseGo, format
+// functions, Validate() methods) over a RateLimiter spec whose URL rule - a struct INLINED into
+// the filter's rule - carries a regular expression: the spec is accepted iff the expression
+// compiles, and an accepted spec instantiates and serves a request without panicking.
+func verifC13_RateLimiterRegex() {
+	vMono = 1 << 41
+	res := []string{"", "^/a[0-9]+$", "(", "[a"}
+	k := verifChoose("url.regex", len(res))
+	usable := k < 2
+	sm := urlrule.StringMatch{RegEx: res[k]}
+	if k == 0 || verifBool("url.hasPrefixToo") {
+		sm.Prefix = "/"
+	}
+	p := &Policy{Name: "p", LimitForPeriod: 1} // durations left to their defaults
+	spec := &Spec{Policies: []*Policy{p}, DefaultPolicyRef: "p", URLs: []*URLRule{{URLRule: urlrule.URLRule{URL: sm}}}}
+	spec.BaseSpec.MetaSpec.Name, spec.BaseSpec.MetaSpec.Kind = "rl", "RateLimiter"
+	vr := v.Validate(spec)
+	verifAssert(vr.Valid() == usable, "validation-accepts-iff-the-url-regexp-compiles")
+	if !vr.Valid() {
+		verifCover("rejected")
+		return
+	}
+	verifCover("accepted")
+	rl := &RateLimiter{spec: spec}
+	rl.Init() // a panic here or below is reported as a violation
+	req := &httpprot.Request{Request: &http.Request{Method: "GET", URL: &url.URL{Path: "/a1"}, Header: http.Header{}}}
+	r, _ := vHandle(rl, req)
+	verifAssert(r == "" || r == resultRateLimited, "declared-result")
 }
